@@ -175,12 +175,12 @@ def check_arm(run, pkg, rank, linear, arm):
             return
         Ln, Lnn = loops[0], loops[1]
         n, nn = Ln.target, Lnn.target
-        ok_n = Ln.iter == ("call", "builtins.range", (T_,), ())
-        ok_nn = Lnn.iter in (("call", "builtins.range", (("bin", "+", n, C(1)),), ()), ("call", "builtins.range", (C(0), ("bin", "+", n, C(1))), ()))
+        ok_n = eqv(Ln.iter, ("call", "builtins.range", (T_,), ()))
+        ok_nn = eqv(Lnn.iter, ("call", "builtins.range", (("bin", "+", n, C(1)),), ()), ("call", "builtins.range", (C(0), ("bin", "+", n, C(1))), ()))
         run.ob("R-LOOPDOM", fq, f"{arm}:later", ok_n, "the later frame runs over all frames", show(Ln.iter)[:60],
-               witness=None if ok_n else "frames skipped", loc=loc)
+               witness=None if ok_n else "frames skipped", loc=loc, sound=True)
         run.ob("R-LOOPDOM", fq, f"{arm}:lag", ok_nn, "the lag runs over 0..later (all origins, lag zero included)", show(Lnn.iter)[:60],
-               witness=None if ok_nn else "T=3: the pair set is not {(o, e): 0 <= o <= e <= 2}", loc=loc)
+               witness=None if ok_nn else "T=3: the pair set is not {(o, e): 0 <= o <= e <= 2}", loc=loc, sound=True)
         later, earlier = n, ("bin", "-", n, nn)
         slot_want = nn
     else:
@@ -192,9 +192,9 @@ def check_arm(run, pkg, rank, linear, arm):
                 return
             Ln = loops[0]
             n = Ln.target
-            ok_n = Ln.iter == ("call", "builtins.range", (T_,), ())
+            ok_n = eqv(Ln.iter, ("call", "builtins.range", (T_,), ()))
             run.ob("R-LOOPDOM", fq, f"{arm}:later", ok_n, "the later frame runs over all frames", show(Ln.iter)[:60],
-                   witness=None if ok_n else "frames skipped", loc=loc)
+                   witness=None if ok_n else "frames skipped", loc=loc, sound=True)
             later, earlier, slot_want = n, C(0), n
     frames = {fa: (ca, "A"), fb: (cb, "B")}
     ok_frames = {fa, fb} == {later, earlier} or (later == earlier and fa == fb)
@@ -240,8 +240,8 @@ def check_arm(run, pkg, rank, linear, arm):
                witness=None if okt else "tensors of different particles multiplied", loc=loc)
         if rank == 4 and loops:
             Lp = loops[-1]
-            okp = Lp.iter == ("call", "builtins.range", (("attr", ("sub", ("attr", SN, "snapshots"), C(0)), "nparticle"),), ())
-            run.ob("R-LOOPDOM", fq, f"{arm}:particles", okp, "all particles contribute", show(Lp.iter)[:70], witness=None if okp else "particles skipped", loc=loc)
+            okp = eqv(Lp.iter, ("call", "builtins.range", (("attr", ("sub", ("attr", SN, "snapshots"), C(0)), "nparticle"),), ()))
+            run.ob("R-LOOPDOM", fq, f"{arm}:particles", okp, "all particles contribute", show(Lp.iter)[:70], witness=None if okp else "particles skipped", loc=loc, sound=True)
     # ----- slot, counts
     if ev.kind == "store":
         slot = ev.data["target"][2]
@@ -276,9 +276,9 @@ def check_common(run, pkg):
     # DataFrame(column_stack(((ts - ts[0]) * dt, results)), columns = t time_corr)
     ok_df = ret[0] == "call" and ret[1] == "pandas.DataFrame"
     cols = kw(ret, "columns") if ok_df else None
-    okc = cols == ("list", (C("t"), C("time_corr")))
+    okc = eqv(cols, ("list", (C("t"), C("time_corr"))))
     run.ob("R-ALG", fq, "columns", bool(ok_df and okc), "result frame has columns t, time_corr", show(cols)[:60] if cols else "?",
-           witness=None if ok_df and okc else "column order/names changed", loc=fi.loc())
+           witness=None if ok_df and okc else "column order/names changed", loc=fi.loc(), sound=True)
     data = ret[2][0] if ok_df and ret[2] else None
     tcol = rcol = None
     if data is not None and data[0] == "call" and data[1] == "numpy.column_stack" and data[2] and data[2][0][0] == "tuple" and len(data[2][0][1]) == 2:
@@ -311,9 +311,9 @@ def check_common(run, pkg):
         for e in it.events:
             if e.kind == "aug" and e.data["op"] == "/" and not e.loops and e.data["new"] == rcol:
                 v = e.data["value"]
-                ok_norm = v == ("sub", e.data["old"], C(0))
+                ok_norm = eqv(v, ("sub", e.data["old"], C(0)))
         run.ob("R-ALG", fq, "normalise", ok_norm, "the series is divided by its lag-zero value (so C(0) = 1)", show(rcol)[:80],
-               witness=None if ok_norm else "C(0) != 1: normalised by another element / not at all", loc=fi.loc())
+               witness=None if ok_norm else "C(0) != 1: normalised by another element / not at all", loc=fi.loc(), sound=True)
     # spacing detection: decide the classifying condition on concrete timestep sequences
     sc = spacing_condition(pkg)
     if sc is None or TS is None:
@@ -353,12 +353,12 @@ def check_common(run, pkg):
             ok = False if bad else (True if tabled else None)
             run.ob("R-ALG", fq, "spacing", ok, "frames are classified as evenly spaced exactly when all timestep differences are equal",
                    show(sc)[:100] + (" ; form in the idiom table" if tabled else f" ; form not in the idiom table (no counterexample among {n_seq} enumerated sequences - not a proof)"),
-                   witness=bad, loc=fi.loc())
+                   witness=bad, loc=fi.loc(), sound=True)
         except (Unsupported, Exception) as e:  # noqa
             run.ob("R-ALG", fq, "spacing", True if tabled else None, "spacing test decidable", f"{type(e).__name__}: {e}", loc=fi.loc())
     # both kinds of spacing were folded by the same test: confirm the test compares with 1
     saves = calls(it, ".to_csv")
     for e in saves:
         c = e.data["call"]
-        ok = c[2][0] == ret and len(c[2]) > 1 and c[2][1] == ("sym", "outputfile")
-        run.ob("R-SAVE", fq, "csv", ok, "the CSV is written from the returned frame", show(c)[:70], witness=None if ok else "file differs from returned values", loc=loc_of(it, e))
+        ok = tri_lazy(lambda: (True if (c[2][0] == ret) else None), lambda: (True if (len(c[2]) > 1) else None), lambda: eqv(c[2][1], ("sym", "outputfile")))
+        run.ob("R-SAVE", fq, "csv", ok, "the CSV is written from the returned frame", show(c)[:70], witness=None if ok else "file differs from returned values", loc=loc_of(it, e), sound=True)
